@@ -518,6 +518,14 @@ pub fn prepare_program(w: &Workload, program: String, io_keys: Option<Vec<u32>>)
     match on_big_stack(|| rt.run_program(&forms)) {
         Ok(()) => {}
         Err(EvalErr::Unsupported(e)) => return Prep::Harness(format!("stub runtime cannot evaluate the program: {e}\n{program}")),
+        // An error even on one thread is this property's business only when it is about a mutex (a
+        // relock, an unlock by a thread that does not hold it: the degenerate deadlock). Any other
+        // error — a type, an arity, an unbound name — means the program is broken for every
+        // schedule, which other properties speak about, or that the stub is stricter than Guile:
+        // set aside and counted like a workload that does not compile.
+        Err(EvalErr::Runtime(e)) | Err(EvalErr::Thrown(e, _)) if !e.contains("mutex") => {
+            return Prep::Discard(format!("the emitted program raises an error even on one thread: {e}"));
+        }
         Err(EvalErr::Runtime(e)) | Err(EvalErr::Thrown(e, _)) => {
             return Prep::Violation(Violation {
                 class: "program-raises-error-sequentially".into(),
@@ -539,6 +547,9 @@ pub fn prepare_program(w: &Workload, program: String, io_keys: Option<Vec<u32>>)
             Ev::RuntimePrint { .. } => uses_runtime_print = true,
             Ev::Error { error: EvalErr::Unsupported(e), .. } => {
                 return Prep::Harness(format!("stub runtime cannot evaluate the policy: {e}\n{program}"))
+            }
+            Ev::Error { error: EvalErr::Runtime(e), .. } | Ev::Error { error: EvalErr::Thrown(e, _), .. } if !e.contains("mutex") => {
+                return Prep::Discard(format!("the policy raises an error even on one thread: {e}"));
             }
             Ev::Error { error: EvalErr::Runtime(e), file, .. } | Ev::Error { error: EvalErr::Thrown(e, _), file, .. } => {
                 return Prep::Violation(Violation {
